@@ -127,10 +127,11 @@ def materialise(template, t):
 class PackWorld:
     """One scenario on the real code."""
 
-    def __init__(self, ctx, template, writers, readers, max_commits, init_packs, disk=False, fine=False):
+    def __init__(self, ctx, template, writers, readers, max_commits, init_packs, disk=False, fine=False, packers=(),
+                 held=False):
         from breezy import branch as _b, repository as _r, lockdir
         self.ctx = ctx
-        self.writers, self.readers = list(writers), list(readers)
+        self.writers, self.readers, self.packers = list(writers), list(readers), list(packers)
         self.tmpd = None
         url = "memory"
         if disk:
@@ -164,7 +165,7 @@ class PackWorld:
         self.nextid = len(self.ids) + 1
         self.content = {self.ids[n]: self._keys_abs(n) for n in names}
         self.holder = ""
-        self.alive = {p: True for p in self.writers + self.readers}
+        self.alive = {p: True for p in self.writers + self.readers + self.packers}
         self.committed = set(tuple(k) for ks in self.content.values() for k in ks)
         self.events = []
         self.results = {}
@@ -177,6 +178,17 @@ class PackWorld:
         def writer(p):
             def prog():
                 b = _b.Branch.open(w.url("r/b_" + p))
+                if held:
+                    # one long lock scope: the collection is NOT reset between commits, the process re-reads
+                    # pack-names explicitly (refresh_data -> reload_pack_names on an already loaded collection)
+                    with b.lock_write():
+                        for n in range(1, max_commits + 1):
+                            b.repository.refresh_data()
+                            # look at what is there (gives other processes room between the reload and our save)
+                            for r in sorted(b.repository.all_revision_ids()):
+                                b.repository.get_revision(r)
+                            commit_one(b, ("%s-%d" % (p, n)).encode(), fname="f_" + p)
+                    return "done"
                 for n in range(1, max_commits + 1):
                     rid = ("%s-%d" % (p, n)).encode()
                     self.pending_commit[p] = rid
@@ -200,8 +212,19 @@ class PackWorld:
                 return "done"
             return prog
 
+        def packer(p):
+            def prog():
+                for n in range(max_commits):
+                    repo = _r.Repository.open(w.url("r"))
+                    with repo.lock_write():
+                        repo.pack()
+                return "done"
+            return prog
+
         lockdir.time.sleep = self._sleep
         try:
+            for p in self.packers:
+                w.spawn(p, packer(p))
             for p in self.writers:
                 w.spawn(p, writer(p))
             for p in self.readers:
@@ -358,7 +381,7 @@ class PackWorld:
         return ev
 
     def live(self):
-        return [p for p in self.writers + self.readers if self.alive[p] and not self.w.done(p)]
+        return [p for p in self.writers + self.readers + self.packers if self.alive[p] and not self.w.done(p)]
 
     # ------------------------------------------------------------------ real-level verdicts
     def fresh_check(self, deep=False):
@@ -439,6 +462,7 @@ def cfg_text(params, spec="TraceSpec", invariants=()):
         if isinstance(v, (list, tuple, set)):
             return "{" + ", ".join('"%s"' % x for x in v) + "}"
         return str(v)
+    params = dict({"Packers": []}, **params)
     t = "SPECIFICATION %s\nCONSTANTS\n" % spec + "".join("  %s = %s\n" % (k, tla(v)) for k, v in params.items())
     return t + "".join("INVARIANT %s\n" % i for i in invariants)
 
